@@ -493,7 +493,9 @@ func notifForms(ups []*gpb.Update) map[string][]*gpb.Notification {
 		return out
 	}
 	h := len(ups) / 2
-	plain := func(us []*gpb.Update, ts int64) *gpb.Notification { return &gpb.Notification{Timestamp: ts, Update: us} }
+	plain := func(us []*gpb.Update, ts int64) *gpb.Notification {
+		return &gpb.Notification{Timestamp: ts, Update: us}
+	}
 	if p := withPrefix(ups[:h], 1); p != nil {
 		out["prefixed-then-plain"] = []*gpb.Notification{p, plain(ups[h:], 2)}
 	}
@@ -602,6 +604,7 @@ func gnmidiffCmd(args []string) *rep.Result {
 	}
 	res.Distinct = len(all)
 	type job struct {
+		s   int64 // concretisation seed of the case
 		i   int
 		pkg *reg.Pkg
 		v   string
@@ -614,7 +617,7 @@ func gnmidiffCmd(args []string) *rep.Result {
 			defer wg.Done()
 			for j := range jobs {
 				other := all[(j.i*7+13)%len(all)]
-				runGD(all[j.i], j.pkg, &conc.Ctx{C: cp, V: cp.Variants[j.v], Seed: c.seed}, c.prop, res, other)
+				runGD(all[j.i], j.pkg, &conc.Ctx{C: cp, V: cp.Variants[j.v], Seed: j.s}, c.prop, res, other)
 			}
 		}()
 	}
@@ -627,7 +630,7 @@ func gnmidiffCmd(args []string) *rep.Result {
 				if c.limit > 0 && (i+vi+int(c.seed))%c.limit != 0 {
 					continue
 				}
-				jobs <- job{i, pkg, v}
+				jobs <- job{s: c.seed + int64(i%13), i: i, pkg: pkg, v: v}
 			}
 		}
 	}
